@@ -66,6 +66,7 @@ func (db *DB) compact(sourceSeg *segment) (CompactionResult, error) {
 	}
 	// Copy records from sourceSeg to the current segment.
 	for {
+		verifCompactionYield(db, "record")
 		err := func() error {
 			db.mu.Lock()
 			defer db.mu.Unlock()
@@ -93,6 +94,7 @@ func (db *DB) compact(sourceSeg *segment) (CompactionResult, error) {
 		}
 	}
 
+	verifCompactionYield(db, "remove")
 	db.mu.Lock()
 	defer db.mu.Unlock()
 	err = db.datalog.removeSegment(sourceSeg)
